@@ -243,6 +243,13 @@ def run(ctx):
 
     _c05_7(ctx, repo)
 
+    # ---- C05.8 (the obligations of C20.12: the Job-level context tag is written by _record_job_tags, also for jobs that reuse a call node) ----
+    from ..report import BorrowCtx
+    from . import C20 as _borrowed_C20
+
+    _borrowed_C20.run(BorrowCtx(ctx, {"C20.12": "C05.8"}))
+
+
 def _vars_assigned_from(fn, text):
     out = set()
     for n in ast.walk(fn):
